@@ -341,6 +341,29 @@ def sy_delegation(ctx, chk, rule, why):
     def ret_call(f):
         """(delegating call, wrapper text or None, readable)"""
         rets = [n for n in ast.walk(f.node) if isinstance(n, ast.Return) and n.value is not None]
+        if len(rets) > 1:
+            # early `return <constant>` under a test of the arguments: an exact test of a zero-width interval agrees with the
+            # integral; a tolerance test does not (the width it swallows grows with the magnitude of the limits)
+            main = []
+            for r in rets:
+                cv = r.value.operand if isinstance(r.value, ast.UnaryOp) else r.value
+                par = getattr(r, "parent", None)
+                if isinstance(cv, ast.Constant) and isinstance(par, ast.If) and r in par.body and len(par.body) == 1:
+                    t = par.test
+                    params = set(f.params[1:])
+                    tn = {x.id for x in ast.walk(t) if isinstance(x, ast.Name)}
+                    tol = [c for c in ast.walk(t) if isinstance(c, ast.Call) and (dotted_name(c.func) or "").split(".")[-1] in ("isclose", "allclose")]
+                    absdiff = [c for c in ast.walk(t) if isinstance(c, ast.Compare) and any(isinstance(o, (ast.Lt, ast.LtE)) for o in c.ops)
+                               and any(isinstance(x, ast.Call) and (dotted_name(x.func) or "").split(".")[-1] in ("abs", "fabs", "absolute") for x in ast.walk(c.left))]
+                    exact = isinstance(t, ast.Compare) and len(t.ops) == 1 and isinstance(t.ops[0], ast.Eq) and isinstance(t.left, ast.Name) \
+                        and isinstance(t.comparators[0], ast.Name) and {t.left.id, t.comparators[0].id} <= params and isinstance(cv.value, (int, float)) and cv.value == 0
+                    if exact:
+                        continue
+                    if (tol or absdiff) and tn & params:
+                        tolerance_returns.append((f, r, t))
+                        continue
+                main.append(r)
+            rets = main
         if len(rets) != 1:
             return None, None, False
         v = rets[0].value
@@ -362,7 +385,13 @@ def sy_delegation(ctx, chk, rule, why):
                 return inner[0], ast.unparse(v)[:70], True
         return None, None, False
 
+    tolerance_returns = []
     (rc, wc, okc), (ri, wi, oki) = ret_call(base_call), ret_call(base_int)
+    for f_, r_, t_ in tolerance_returns:
+        chk.ob(rule, False, where_of(f_, r_), "%s returns the constant %s when `%s`" % (f_.qualname, ast.unparse(r_.value), ast.unparse(t_)[:70]),
+               "the integral between two different limits is the spline's own integral, however close the limits are (an exact test `lo == hi` is the only zero-width case)",
+               key="SpecificYield|tolerance-branch", local=True,
+               why=why + "; np.isclose scales its tolerance with the magnitude of the limits (1e-5 relative): for levels referred to a distant datum, or on a finely refined grid, whole cells integrate to zero, so refining the grid changes values at shared levels")
     recv_c = dotted_name(rc.func) if rc is not None else None
     recv_i = dotted_name(ri.func) if ri is not None else None
     readable = okc and oki and all(isinstance(a, ast.Name) for a in list(rc.args) + list(ri.args)) and not rc.keywords and not ri.keywords
